@@ -324,7 +324,7 @@ def tab1_depth_balance(units, R):
                 R.ob('TAB1', fn, x, 'depth increment %s is undone before every successful return' % cs, not bad,
                      'every path to a true return passes a decrement' if not bad else
                      'return at line %d reached without decrement' % bad[0].line, key='balance:' + cs)
-    R.floor('TAB1', 'depth increments', n, 2)
+    R.floor('TAB1', 'depth increments', n, 1)
 
 
 # ---- TAB2 parse funnel -------------------------------------------------------------------------------------
